@@ -87,6 +87,9 @@ pub use error::{Result, SvmError};
 pub use hyperparams::{SvmParams, SvmValidParams};
 use linfa_kernel::KernelMethod;
 pub use solver_smo::{SeparatingHyperplane, SolverParams};
+// verification hook: `solver_smo::SolverState` is public but its kernel bound lives in a private module
+#[cfg(rust_ml_linfa_verif)]
+pub use permutable_kernel::{Permutable, PermutableKernel, PermutableKernelOneClass, PermutableKernelRegression};
 
 use std::ops::Mul;
 
